@@ -1434,6 +1434,10 @@ class Interp:
 
     def instantiate(self, cls, args, kwargs, node):
         obj = self.born(VObj(cls.name.split(".")[-1], attrs={"__class__": cls, "__repo_instance__": True}))
+        if not self.spec_mode:
+            if not hasattr(self, "instances_created"):
+                self.instances_created = []
+            self.instances_created.append(obj)
         init = self.find_method(cls, "__init__")
         if init is not None and init[0] == "method":
             info = init[1]
